@@ -1,0 +1,9 @@
+//go:build verif
+
+package tables
+
+// Contracts for gocv (comment-only; see /verif/DESIGN.md).  No executable code.
+
+// ---- C03: the detector registry is the only package-level state with a mutator; it is a registration API
+// called from init and by applications before extraction, never on an extraction path ----
+//@ global globalRegistry mutator RegisterDetector because registration API (called from init); not reachable from any extraction entry point
